@@ -148,7 +148,11 @@ def run(rep, tier):
     impl = 'uscxml::InterpreterImpl'
     handles = {fd['name'] for fd in fb.records[impl]['fields'] if fd['t'].replace('class ', '') in FACADES or fd['t'] in [x.split('::')[-1] for x in FACADES]}
     rep.minimum('R10.2', len(handles), 5, 'facade handles in InterpreterImpl')
-    entries = ['uscxml::InterpreterImpl::receive', 'uscxml::InterpreterImpl::cancel', 'uscxml::InterpreterImpl::reset', 'uscxml::InterpreterImpl::~InterpreterImpl']
+    rcv0 = fb.fn('uscxml::Interpreter::receive')
+    fwd0 = [n['callee']['q'] for n in rcv0.walk() if n.get('callee') and n['callee']['q'].startswith('uscxml::InterpreterImpl::')]
+    if not fwd0:
+        raise AnalysisBroken('Interpreter::receive does not forward to InterpreterImpl')
+    entries = [fwd0[0], 'uscxml::InterpreterImpl::cancel', 'uscxml::InterpreterImpl::reset', 'uscxml::InterpreterImpl::~InterpreterImpl']
     nuses = 0
     for q in entries:
         f = fb.fn(q)
@@ -206,18 +210,6 @@ def run(rep, tier):
             rep.check(guarded, 'R10.2', '%s|%s.%s' % (q.split('::')[-1], h, meth), locstr(n),
                       '%s uses handle %s (null until init()): %s' % (q.split('::')[-1], h, 'guarded by its test / created on demand' if guarded else 'UNGUARDED - crashes on an interpreter that was never stepped'))
     rep.minimum('R10.2', nuses, 5, 'handle uses in the pre-init API entries')
-    rcv = fb.fn('uscxml::Interpreter::receive')
-    tgt = [n['callee']['q'] for n in rcv.walk() if n.get('callee') and n['callee']['q'].startswith('uscxml::InterpreterImpl::')]
-    if tgt == ['uscxml::InterpreterImpl::receive']:
-        rep.ok('R10.2', 'Interpreter::receive', 'forwards to InterpreterImpl::receive (checked above)')
-    else:
-        # forwards somewhere else: that function is then the pre-init entry and its handle uses must be guarded
-        for q in tgt:
-            f = fb.fn(q)
-            unguarded = [n for n in f.walk() if n['k'] == 'CXXMemberCallExpr' and n.get('c') and n['c'][0].get('c') and strip(n['c'][0]['c'][0])['k'] == 'MemberExpr'
-                         and strip(n['c'][0]['c'][0])['ref'].get('name') in handles and not any(a['k'] == 'IfStmt' for a in f.ancestors(n))]
-            rep.check(not unguarded, 'R10.2', 'Interpreter::receive->%s' % q.split('::')[-1], f.where(), 'receive() forwards to %s which uses handle(s) %s without a guard: crashes before the first step' % (
-                q, sorted({strip(n['c'][0]['c'][0])['ref']['name'] for n in unguarded})))
 
     # ---- R10.3
     for eq in ENGINES:
